@@ -87,3 +87,9 @@ pub broadcast proof fn axiom_instant_sub(a: Instant, b: Instant)
     dur_ns(<Instant as SubSpec<Instant>>::sub_spec(a, b)) == (if inst_ns(a) >= inst_ns(b) { inst_ns(a) - inst_ns(b) } else { 0 }),
 {}
 pub broadcast group group_instant_axioms { axiom_instant_add, axiom_instant_obeys_add, axiom_instant_obeys_sub, axiom_instant_obeys_cmp, axiom_instant_cmp, axiom_instant_sub }
+
+// ---- converter ----
+pub assume_specification<T: Ord> [ <[T]>::sort ] (s: &mut [T])
+  ensures final(s)@.len() == old(s)@.len();
+pub assume_specification<'a> [<std::str::Chars<'a> as std::iter::Iterator>::count] (c: std::str::Chars<'a>) -> usize;
+pub assume_specification<'a, T: Copy + 'a, A: std::alloc::Allocator, I: std::iter::IntoIterator<Item = &'a T>> [<std::vec::Vec<T, A> as std::iter::Extend<&'a T>>::extend] (v: &mut std::vec::Vec<T, A>, i: I);
